@@ -61,6 +61,8 @@ structure Env where
   hasSignal : Bool
   /-- order in which the i-th map iteration visits its keys: a permutation selector -/
   mapOrder : Nat → Nat
+  /-- grok call sites compiled at load time: site ↦ (visible pattern definitions + pattern) -/
+  grok : Nat → Option Bytes := fun _ => none
   /-- engine answers collected so far (query ↦ answer) -/
   oracle : Bytes → Option Bytes
 
